@@ -64,6 +64,7 @@ table! {
     c07::h_roundtrip,
     c08::h_edits,
     c08::h_completed,
+    c08::h_missing_with_optional,
     c09::h_cuts,
     c09::h_chunks,
     c09::h_malformed,
